@@ -1,14 +1,18 @@
 """C20 - Multi-image subscription polling: bounded, fair, and sessions never mix."""
+import os
+
+from vlib import core
 from vlib.term import z, to_coq
 from props import c05
 
 ID = 'C20'
 PROP_FILE = 'Props/C20.v'
+EXTRA_PROP_FILES = ['Props/C20Src.v']     # K1 source tie (tools/props/src_translate.py), see docs/reports/SRC.md
 EVAL_FILES = ['Oracle/C20Oracle.v']
 CRATES = ['c20']
 MODES = ['debug', 'release']
 IMPORTS = ('Require Import V.Base.MachineInt V.Model.LogBase V.Model.Reader V.Model.Image V.Model.Subscription '
-           'V.Model.Assembler V.Oracle.C05Cases V.Oracle.C05Oracle V.Oracle.C20Cases V.Oracle.C20Oracle.')
+           'V.Model.Assembler V.Model.BufferBuilder V.Model.AssemblerBB V.Oracle.C05Cases V.Oracle.C05Oracle V.Oracle.C20Cases V.Oracle.C20Oracle.')
 RULE = ('histories of 4-11 operations on a Subscription obtained from the conductor with 1-5 images (each on its own log '
         'file, distinct session ids incl. i32::MIN/MAX, own geometry position: term counts {0,1,2,65536,2^31-2}, random aligned '
         'start offsets, start possibly in the middle of a fragmented message): Subscription::poll through a FragmentAssembler '
@@ -17,12 +21,18 @@ RULE = ('histories of 4-11 operations on a Subscription obtained from the conduc
         'remove_image between calls (on_available_image / on_unavailable_image), fragment limits {0,1,2,3,10,MAX,-1}; frame '
         'streams: unfragmented, BEGIN/MIDDLE*/END runs with payloads 1..160, padding, claimed tail; a malformed stream '
         '(END without BEGIN, BEGIN after BEGIN, MIDDLE alone, empty BEGIN payload, unfragmented inside a run). '
-        'non-trivial = at least two images and two polls; distinct = distinct case descriptions')
+        'kind padded: images standing on (or reaching) the padding frame that closes their term, the publisher continuing in the next '
+        'term (roll), images added / removed at every point of the round-robin (kind rotate); '
+        'kind bb: one BufferBuilder::new(initial length in {0,1,2,31..129,4096,65536,2^20,negative,2^31,2^32+5,2^40,2^62,2^62+1,i64::MIN}) '
+        'then 3-12 of append(0..30000 bytes) / reset / set_limit, observing limit, capacity and the bytes [32, limit); '
+        'kind find (only when the repository carries hooks/sub.diff): find_suitable_capacity on capacities / requirements around '
+        '2, 64, 2^30, BB_SAFE = 1431655765, MAX = 2147483639 and i32::MAX. '
+        'non-trivial = at least two images and two polls, or a builder case that grows at least once; distinct = distinct case descriptions')
 ASSUMPTIONS = [
     'session ids of the images of one subscription are distinct (the driver creates one image per session)',
     'every frame of an image log carries the session id of that image',
     'one polling thread per subscription; add / remove of images happen between polls (AtomicVec is not exercised concurrently here)',
-    'BufferBuilder capacity growth is not modelled; it is exercised by small initial buffer lengths (0 and 1 made find_suitable_capacity loop for ever before fixes/C20-buffer-builder-min-capacity.diff)',
+    'BufferBuilder is modelled as the code is (Model/BufferBuilder.v, numbers regenerated from the source by tools/props/c20_translate.py); its source pointer arithmetic and the allocator are trusted; appends beyond BB_SAFE = 1431655765 bytes (debug and release builds differ there) are reachable only through the find_suitable_capacity hook',
 ] + c05.ASSUMPTIONS[:3]
 PER_CASE_TIMEOUT = 1.0
 CHUNK = 20
@@ -77,11 +87,14 @@ def gen_stream(rng, budget, malformed):
     return out, used
 
 
-def gen_case(rng, malformed=False):
+def gen_case(rng, malformed=False, padded=False):
+    """padded: some images sit on (or reach) the padding frame that closes their term; the publisher then continues in the
+    next term (op 'roll'), so that an image whose poll does not leave the padding frame is never served again."""
     nslots = rng.choice([1, 2, 2, 3, 3, 4, 5])
     sessions = [11, -22, 33, MAXI, MINI, 0, 7]
     rng.shuffle(sessions)
     slots = []
+    rolls = []
     for i in range(nslots):
         bits = 16
         tl = 1 << bits
@@ -91,11 +104,26 @@ def gen_case(rng, malformed=False):
         off = 32 * rng.randrange(0, (tl - used) // 32 + 1) if rng.random() < 0.7 else 0
         if rng.random() < 0.1:
             off = tl - used
+        pad_here = padded and (i == 0 or rng.random() < 0.5)
+        if pad_here:
+            if rng.random() < 0.6:
+                off = tl - used - 32 * rng.choice([1, 1, 2, 3, 10, 100])
+            if tl - off - used >= 32:
+                frames = frames + [[0, 0, tl - off - used, 0, 0]]
         vis = rng.choice([0, len(frames), rng.randrange(0, len(frames) + 1), rng.randrange(0, len(frames) + 1)])
+        if pad_here:
+            vis = rng.choice([len(frames), len(frames), max(0, len(frames) - 1)])
         seg = [n, off, vis, rng.choice([0, 0, 1]), frames]
         bs = c05.boundaries(seg, tl)
         pos0 = bs[0] if rng.random() < 0.7 else rng.choice(bs)
+        if pad_here and len(frames) >= 1 and rng.random() < 0.6:
+            pos0 = bs[-2]          # caught up: exactly on the padding frame (or the last frame) that closes the term
         slots.append([bits, init, sessions[i], pos0, seg])
+        if pad_here:
+            nf, _ = gen_stream(rng, 3000, False)
+            if not nf:
+                nf = [[1, 192, 32 + rng.choice([1, 40, 100]), rng.randrange(1, 1000), 0]]
+            rolls.append(['roll', i, rng.choice([len(nf), len(nf), rng.randrange(0, len(nf) + 1)]), rng.choice([0, 0, 1]), nf])
     order = list(range(nslots))
     rng.shuffle(order)
     initial = order[:rng.choice([nslots, nslots, max(1, nslots - 1), rng.randrange(0, nslots + 1)])]
@@ -112,14 +140,29 @@ def gen_case(rng, malformed=False):
             tab = [rng.choice([4, 4, 3, 3, 1, 2]) for _ in range(rng.choice([0, 1, 2, 3, 5]))]
             ops.append(['cpoll', limit, rng.randrange(0, 7), tab])
         elif r < 0.70:
-            ops.append(['block', rng.choice([0, 32, 64, 96, 128, 1000, 65536, -1])])
+            ops.append(['block', rng.choice([0, 32, 64, 96, 128, 1000, 65536, -1, MAXI, MAXI, 2**31 - 65536, 2**30])])
         elif r < 0.86:
             ops.append(['grow', rng.randrange(nslots), rng.choice([1, 1, 2, 3, 100])])
         elif r < 0.93:
             ops.append(['add', rng.randrange(nslots)])
         else:
             ops.append(['remove', rng.randrange(nslots)])
-    return {'kind': 'malformed' if malformed else 'sub', 'slots': slots, 'initial': initial, 'ibl': ibl, 'ops': ops}
+    if padded:
+        initial = order[:nslots] if rng.random() < 0.8 else initial
+        for r in rolls:
+            at = rng.randrange(0, len(ops) + 1)
+            ops.insert(at, ['grow', r[1], 1])
+            at2 = rng.randrange(at + 1, len(ops) + 1)
+            ops.insert(at2, r)
+            for _ in range(rng.choice([0, 1, 2])):
+                ops.insert(rng.randrange(at2 + 1, len(ops) + 1), ['grow', r[1], rng.choice([1, 2, 100])])
+        for _ in range(rng.choice([2, 4, 6])):
+            limit = rng.choice([1, 1, 2, 3, 10, MAXI])
+            if rng.random() < 0.8:
+                ops.append(['poll', limit])
+            else:
+                ops.append(['cpoll', limit, rng.randrange(0, 7), [rng.choice([4, 4, 3, 1, 2]) for _ in range(rng.choice([0, 1, 3]))]])
+    return {'kind': 'malformed' if malformed else ('padded' if padded else 'sub'), 'slots': slots, 'initial': initial, 'ibl': ibl, 'ops': ops}
 
 
 def boundary_cases():
@@ -135,18 +178,131 @@ def boundary_cases():
     # joined in the middle of a message: image 0 starts at the MIDDLE fragment
     out.append({'kind': 'sub', 'slots': [[16, 5, 77, 96, [0, 0, 5, 0, a]], [16, 9, 88, 64, [0, 64, 4, 0, b]]],
                 'initial': [1, 0], 'ibl': 32, 'ops': [['poll', 1], ['poll', 1], ['poll', 10], ['poll', 10]]})
+    # fairness across a term end: image 1 has caught up and sits exactly on the padding frame that closes its term while
+    # images 0 and 2 always have data; the publisher continues in the next term (roll).  Every image must be served.
+    pad = [[1, 192, 50, 20, 0], [0, 0, 65536 - 4096 - 64, 0, 0]]
+    nxt = [[1, 128, 96, 21, 0], [1, 64, 40, 22, 0], [1, 192, 44, 23, 0]]
+    for limit in (1, 10):
+        out.append({'kind': 'padded', 'slots': [[16, 5, 77, 0, [0, 0, 5, 0, a]], [16, MAXI, 88, 2 * 65536 + 4096 + 64, [2, 4096, 2, 0, pad]],
+                                                  [16, -3, 99, 65536 * 2, [2, 0, 4, 0, c]]],
+                    'initial': [0, 1, 2], 'ibl': 0,
+                    'ops': [['poll', limit]] * 4 + [['roll', 1, 3, 0, nxt]] + [['poll', limit]] * 5})
+    # the padding frame becomes visible only after the image has caught up with the last data frame
+    out.append({'kind': 'padded', 'slots': [[16, 9, 88, 65536 + 4096, [1, 4096, 1, 0, pad]], [16, 5, 77, 0, [0, 0, 5, 0, a]]],
+                'initial': [0, 1], 'ibl': 64,
+                'ops': [['poll', 1], ['poll', 1], ['grow', 0, 1], ['cpoll', 1, 0, [1]], ['poll', 1], ['poll', 1], ['roll', 0, 2, 1, nxt],
+                        ['poll', 1], ['poll', 1], ['grow', 0, 1], ['poll', 2], ['poll', 2]]})
+    return out
+
+
+BB_SAFE = 1431655765
+BB_MAX = 2**31 - 1 - 8
+
+
+def gen_bb(rng):
+    initial = rng.choice([0, 1, 2, 31, 32, 33, 63, 64, 65, 100, 127, 128, 129, 4096, 5000, 65536, 2**20, -1, -5, 2**31, 2**31 + 1,
+                          2**32 + 5, 2**40, 2**62, 2**62 + 1, -2**63, rng.randrange(1, 10000)])
+    ops = []
+    for _ in range(rng.randrange(3, 13)):
+        r = rng.random()
+        if r < 0.70:
+            ln = rng.choice([0, 1, 2, 31, 32, 33, 63, 64, 95, 96, 97, 100, 1000, 4064, 4065, rng.randrange(0, 300), rng.randrange(0, 300),
+                             rng.randrange(0, 3000), rng.randrange(0, 30000) if rng.random() < 0.15 else 50])
+            ops.append(['append', rng.randrange(1, 1000), ln])
+        elif r < 0.85:
+            ops.append(['reset'])
+        else:
+            ops.append(["setlimit", rng.choice([MAXI, MAXI, MAXI, 0, 31, 32, 33, 64, 100, 4096, 6000, rng.randrange(0, 8000)])])
+    return {'kind': 'bb', 'initial': initial, 'ops': ops}
+
+
+def bb_boundary():
+    out = []
+    # the first growth from every small initial capacity, one byte below / at / above the capacity
+    for initial in (0, 64, 65, 128, 2048):
+        cap = max(64, 1 << (initial - 1).bit_length()) if initial > 0 else 64
+        for d in (-1, 0, 1):
+            out.append({'kind': 'bb', 'initial': initial,
+                        'ops': [['append', 3, cap - 32 + d], ['setlimit', MAXI], ['append', 4, cap], ['reset'], ['append', 5, 3 * cap]]})
+    # a message assembled from many fragments: the capacity walks 64, 96, 144, 216, 324, ...
+    out.append({'kind': 'bb', 'initial': 1, 'ops': [['append', k, 40] for k in range(1, 13)]})
+    return out
+
+
+def has_bb_hook():
+    try:
+        return 'fn find_suitable_capacity_for_verif' in open(os.path.join(core.REPO, 'src/buffer_builder.rs')).read()
+    except OSError:
+        return False
+
+
+def find_cases():
+    caps = [2, 3, 64, 100, 4096, 2**20, 2**30, 1500000000, BB_SAFE - 1, BB_SAFE, BB_SAFE + 1, BB_SAFE + 2, 2000000000, BB_MAX - 1, BB_MAX]
+    out = []
+    for c in caps:
+        for r in sorted({c + 1, 2 * c, 3 * c + 7, BB_SAFE, BB_SAFE + 1, BB_SAFE + 2, BB_MAX - 1, BB_MAX, BB_MAX + 1, MAXI}):
+            if c < r <= MAXI:
+                out.append({'kind': 'find', 'cap': c, 'req': r})
+    return out
+
+
+def rotate_cases():
+    """add / remove of an image between polls at every point of the round-robin: n images with data everywhere, limit 1,
+    k polls, then the change, then n + 2 polls."""
+    out = []
+    for n in (2, 3):
+        for k in range(0, n + 2):
+            for change in ('add', 'remove_first', 'remove_last', 'remove_next'):
+                slots = []
+                for i in range(n + 1):
+                    frames = [[1, 192, 40 + j, 10 * i + j + 1, 0] for j in range(8)]
+                    slots.append([16, i, 50 + i, 0, [0, 0, 8, 0, frames]])
+                initial = list(range(n))
+                ops = [['poll', 1]] * k
+                if change == 'add':
+                    ops = ops + [['add', n]]
+                elif change == 'remove_first':
+                    ops = ops + [['remove', 0]]
+                elif change == 'remove_last':
+                    ops = ops + [['remove', n - 1]]
+                else:
+                    ops = ops + [['remove', k % n]]
+                ops = ops + [['poll', 1]] * (n + 2)
+                out.append({'kind': 'rotate', 'slots': slots, 'initial': initial, 'ibl': 0, 'ops': ops})
     return out
 
 
 def generate(rng, tier):
-    n = 40000 if tier == 'thorough' else 1200
-    cases = boundary_cases()
+    n = 40000 if tier == 'thorough' else 700
+    cases = boundary_cases() + bb_boundary() + rotate_cases()
+    if has_bb_hook():
+        cases += find_cases()
     for i in range(n):
-        cases.append(gen_case(rng, malformed=(i % 8 == 5)))
-    return cases
+        cases.append(gen_case(rng, malformed=(i % 8 == 5), padded=(i % 8 in (2, 6))))
+    bbs = [gen_bb(rng) for i in range(n // 6)]
+    # spread the builder cases (the most expensive ones to evaluate) evenly, so that the evaluation shards are balanced
+    step = max(1, len(cases) // max(1, len(bbs)))
+    out = []
+    for i, c in enumerate(cases):
+        out.append(c)
+        if i % step == step - 1 and bbs:
+            out.append(bbs.pop())
+    return out + bbs
 
 
 def impl_line(c):
+    if c['kind'] == 'bb':
+        p = ['bb', c['initial'], len(c['ops'])]
+        for o in c['ops']:
+            if o[0] == 'append':
+                p += [1, o[1], o[2]]
+            elif o[0] == 'reset':
+                p += [2]
+            else:
+                p += [3, o[1]]
+        return ' '.join(str(x) for x in p)
+    if c['kind'] == 'find':
+        return 'find %d %d' % (c['cap'], c['req'])
     p = ['sub', len(c['slots'])]
     for bits, init, se, pos0, (n, off, vis, claim, frames) in c['slots']:
         p += [bits, init, se, pos0, n, off, vis, claim, len(frames)]
@@ -167,6 +323,10 @@ def impl_line(c):
             p += [5, o[1]]
         elif k == 'remove':
             p += [6, o[1]]
+        elif k == 'roll':
+            p += [7, o[1], o[2], o[3], len(o[4])]
+            for f in o[4]:
+                p += f
         else:
             raise ValueError(o)
     return ' '.join(str(x) for x in p)
@@ -195,6 +355,9 @@ def c_op(o):
         return 'SAdd %s' % z(o[1])
     if k == 'remove':
         return 'SRemove %s' % z(o[1])
+    if k == 'roll':
+        fs = '[' + '; '.join('(%s, %s, %s, %s, %s)' % tuple(z(x) for x in f) for f in o[4]) + ']'
+        return 'SRoll %s %s %s %s' % (z(o[1]), z(o[2]), 'true' if o[3] else 'false', fs)
     raise ValueError(o)
 
 
@@ -206,22 +369,57 @@ def c_initial(c):
     return '[' + '; '.join(z(i) for i in c['initial']) + ']'
 
 
+def c_bops(c):
+    out = []
+    for o in c['ops']:
+        if o[0] == 'append':
+            out.append('BAppend %s %s' % (z(o[1]), z(o[2])))
+        elif o[0] == 'reset':
+            out.append('BReset')
+        else:
+            out.append('BSetLimit %s' % z(o[1]))
+    return '[' + '; '.join(out) + ']'
+
+
 def model_expr(c, mode):
-    return 'run_sub_case %s %s %s %s' % (mode_c(mode), c_slots(c), c_initial(c), c_ops(c))
+    if c['kind'] == 'bb':
+        return 'run_bb_case %s %s %s' % (mode_c(mode), z(c['initial']), c_bops(c))
+    if c['kind'] == 'find':
+        return 'find_suitable_capacity %s %s %s' % (mode_c(mode), z(c['cap']), z(c['req']))
+    # the model with the assembler's real BufferBuilders; a run in which a builder operation fails prints as []
+    return 'match run_sub_case_bb %s %s %s %s %s with Ok l => l | _ => [] end' % (mode_c(mode), z(c['ibl']), c_slots(c), c_initial(c), c_ops(c))
 
 
 def oracle_expr(c, mode, obs):
+    if c['kind'] == 'find':
+        if isinstance(obs, int) or obs[0] != 'app':
+            return 'false'
+        return 'holds_find %s %s (%s)' % (z(c['cap']), z(c['req']), to_coq(obs))
     if isinstance(obs, int) or obs[0] != 'list':
         return 'false'     # the whole case crashed, hung or could not be parsed: nothing satisfies the property
+    if c['kind'] == 'bb':
+        return 'holds_bb_case %s %s %s' % (z(c['initial']), c_bops(c), to_coq(obs))
     return 'holds_sub_case %s %s %s %s' % (c_slots(c), c_initial(c), c_ops(c), to_coq(obs))
 
 
 def nontrivial(c):
+    if c['kind'] == 'bb':
+        return sum(o[2] for o in c['ops'] if o[0] == 'append') > 64
+    if c['kind'] == 'find':
+        return True
     return len(c['slots']) >= 2 and sum(1 for o in c['ops'] if o[0] in ('poll', 'cpoll')) >= 2
 
 
 def shrink(c):
     out = []
+    if c['kind'] == 'find':
+        return out
+    if c['kind'] == 'bb':
+        for i in range(len(c['ops'])):
+            d = dict(c)
+            d['ops'] = c['ops'][:i] + c['ops'][i + 1:]
+            out.append(d)
+        return out
     ops = c['ops']
     for i in range(len(ops)):
         d = dict(c)
@@ -242,7 +440,7 @@ def shrink(c):
     if len(c['slots']) > 1:
         # drop the last slot when no operation names it
         last = len(c['slots']) - 1
-        if all(not (o[0] in ('grow', 'add', 'remove') and o[1] == last) for o in ops):
+        if all(not (o[0] in ('grow', 'add', 'remove', 'roll') and o[1] == last) for o in ops):
             d = dict(c)
             d['slots'] = c['slots'][:-1]
             d['initial'] = [i for i in c['initial'] if i != last]
